@@ -5,6 +5,7 @@ import (
 	"fmt"
 	"os"
 	"reflect"
+	"runtime"
 	"sort"
 	"strconv"
 	"strings"
@@ -48,11 +49,13 @@ type Report struct {
 	WallS              float64          `json:"wall_s"`
 	Extra              map[string]any   `json:"extra,omitempty"`
 
-	start      time.Time
-	deadline   time.Time
-	sampleSeen int64
-	seed       int64
-	match      any
+	start        time.Time
+	deadline     time.Time
+	expiredCalls int64
+	memStop      bool
+	sampleSeen   int64
+	seed         int64
+	match        any
 }
 
 // Env describes how the shard was invoked.
@@ -106,9 +109,30 @@ func NewReport(e Env, engine string) *Report {
 	return r
 }
 
+// memBudget is the heap size at which a shard stops by itself (the driver limits the address
+// space of a shard to 8 GB).
+const memBudget = 4 << 30
+
 // Expired reports whether the internal deadline has passed; the first time it does the
 // report is marked non-exhaustive with the cap that was hit.
 func (r *Report) Expired() bool {
+	// the shard's own memory is a budget too: a process killed by the memory limit loses its
+	// report, a process that stops by itself says what it covered (checked every 512th call)
+	r.expiredCalls++
+	if r.memStop || r.expiredCalls%512 == 0 {
+		if !r.memStop {
+			var ms runtime.MemStats
+			runtime.ReadMemStats(&ms)
+			if ms.HeapAlloc > memBudget {
+				r.memStop = true
+				r.Exhaustive = false
+				r.CapsHit = append(r.CapsHit, fmt.Sprintf("memory budget reached (heap %d MB)", ms.HeapAlloc>>20))
+			}
+		}
+		if r.memStop {
+			return true
+		}
+	}
 	if r.deadline.IsZero() || time.Now().Before(r.deadline) {
 		return false
 	}
